@@ -255,3 +255,85 @@ theorem build_good {α : Type} [Arith α] (files : List (UnitsFile α)) :
       exact ⟨b, c, rfl, h2, hp⟩
 
 end Cook.Bld
+
+namespace Cook.Bld
+open Cook
+
+/-! ## Order of the best lists (exact arithmetic) -/
+
+theorem mem_insertByRatio {α : Type} [Arith α] (x e : α × Nat) (l : List (α × Nat)) :
+    e ∈ insertByRatio x l ↔ e = x ∨ e ∈ l := by
+  rw [(insertByRatio_perm x l).mem_iff]; simp
+
+theorem insertByRatio_sorted (x : Rat × Nat) (l : List (Rat × Nat)) (h : l.Pairwise (fun a b => a.1 ≤ b.1)) :
+    (insertByRatio x l).Pairwise (fun a b => a.1 ≤ b.1) := by
+  induction l with
+  | nil => simp [insertByRatio]
+  | cons y ys ih =>
+    unfold insertByRatio
+    have hc := List.pairwise_cons.mp h
+    split
+    · rename_i hlt
+      simp only [rat_lt, decide_eq_true_eq] at hlt
+      refine List.pairwise_cons.mpr ⟨?_, ih hc.2⟩
+      intro e he
+      rcases (mem_insertByRatio x e ys).mp he with rfl | he
+      · exact Rat.le_of_lt hlt
+      · exact hc.1 e he
+    · rename_i hlt
+      simp only [rat_lt, decide_eq_true_eq] at hlt
+      have hxy : x.1 ≤ y.1 := Rat.not_lt.mp hlt
+      refine List.pairwise_cons.mpr ⟨?_, h⟩
+      intro e he
+      rcases List.mem_cons.mp he with rfl | he
+      · exact hxy
+      · exact Rat.le_trans hxy (hc.1 e he)
+
+theorem sortByRatio_sorted (l : List (Rat × Nat)) : (sortByRatio l).Pairwise (fun a b => a.1 ≤ b.1) := by
+  induction l with
+  | nil => simp [sortByRatio]
+  | cons x xs ih => unfold sortByRatio; exact insertByRatio_sorted x _ ih
+
+end Cook.Bld
+
+namespace Cook.Bld
+open Cook
+
+/-- `i` is not a larger unit than `j` -/
+def RatioLe (c : Core Rat) (i j : Nat) : Prop :=
+  ∀ ua ub, c.units[i]? = some ua → c.units[j]? = some ub → ua.unit.ratio ≤ ub.unit.ratio
+
+/-- a best list is in non-decreasing ratio order -/
+theorem BestSpec.sorted {c : Core Rat} {q : PQ} {names : List Key} {l : List (Rat × Nat)} (h : BestSpec c q names l) :
+    l.Pairwise (fun a b => RatioLe c a.2 b.2) := by
+  obtain ⟨rs, _, hrat, hmap⟩ := h.ids
+  have hperm := sortByRatio_perm rs
+  have h1 : (sortByRatio rs).Pairwise (fun a b => RatioLe c a.2 b.2) := by
+    refine (sortByRatio_sorted rs).imp_of_mem ?_
+    intro a b ha hb hab ua ub hua hub
+    obtain ⟨u1, h1, _, r1⟩ := hrat a (hperm.mem_iff.mp ha)
+    obtain ⟨u2, h2, _, r2⟩ := hrat b (hperm.mem_iff.mp hb)
+    rw [hua] at h1; cases h1; rw [hub] at h2; cases h2
+    rw [r1, r2]; exact hab
+  have h2 : ((sortByRatio rs).map (·.2)).Pairwise (RatioLe c) := List.pairwise_map.mpr h1
+  rw [← hmap] at h2
+  exact List.pairwise_map.mp h2
+
+/-- every entry of a best list is a unit of the list's quantity -/
+theorem BestSpec.quantity {α : Type} [Arith α] {c : Core α} {q : PQ} {names : List Key} {l : List (α × Nat)} (h : BestSpec c q names l) :
+    ∀ e, e ∈ l → ∃ u, c.units[e.2]? = some u ∧ u.unit.quantity = q := by
+  obtain ⟨rs, _, hrat, hmap⟩ := h.ids
+  intro e he
+  have : e.2 ∈ (sortByRatio rs).map (·.2) := by rw [← hmap]; exact List.mem_map.mpr ⟨e, he, rfl⟩
+  obtain ⟨e', he', heq⟩ := List.mem_map.mp this
+  obtain ⟨u, hu, hq, _⟩ := hrat e' ((sortByRatio_perm rs).mem_iff.mp he')
+  exact ⟨u, by rw [← heq]; exact hu, hq⟩
+
+/-- a best list holds exactly the units its names resolve to (as a multiset) -/
+theorem BestSpec.members {α : Type} [Arith α] {c : Core α} {q : PQ} {names : List Key} {l : List (α × Nat)} (h : BestSpec c q names l) :
+    ((l.map (·.2)).map some).Perm (names.map (idxGet c.index)) := by
+  obtain ⟨rs, hres, _, hmap⟩ := h.ids
+  rw [hmap, hres, List.map_map]
+  exact (sortByRatio_perm rs).map _
+
+end Cook.Bld
